@@ -1,6 +1,7 @@
 (** C13 — Session and link lifecycles.  The theorems are about the session
-    lifecycle model Session/SessLife.v and the sender-link lifecycle model
-    Link/LinkLife.v (both run against the real engines on scripts every run). *)
+    lifecycle model Session/SessLife.v, the sender-link lifecycle model
+    Link/LinkLife.v and the receiver-link lifecycle model Link/RecvLife.v (all
+    run against the real engines on scripts every run). *)
 From FV Require Import Session.SessLife Proofs.SessionLifeProofs Link.LinkLife Proofs.LinkLifeProofs.
 
 (** For every interleaving of local calls (begin, end, end_with_error, drop,
@@ -84,3 +85,93 @@ Example C13_link_clean :
   snd (lkrun LAttSent [VPAttach; VPFlow; VSend; VPAccept; VClose; VPDetach KClose]) =
     [[DAttach]; []; [XTransfer]; [DSend None]; [XDetach true]; [DClose None]].
 Proof. exact clean_detach_close. Qed.
+
+(** ** Link clauses (model Link/RecvLife.v of the receiving link: Receiver::{attach, recv, detach, close, drop}).
+
+    As for the sending link the model is faithful to the code (run against it on scripts every run, sub [lifer]), the
+    clauses that hold are theorems, the others are stated with the exact exception and a refutation witness
+    (each witness is replayed on the implementation by the [lifer] / [lifex] harness). *)
+From FV Require Import Link.RecvLife Proofs.RecvLifeProofs.
+
+(** Once the link has written its detach it writes no flow, no disposition and no second detach - except in the one
+    transition [rsecond_detach] (close() answered by a non-closing detach: the re-attach fails and the drop of the
+    receiver writes a closing detach again). *)
+Theorem C13_rlink_after_detach_partial :
+  forall s e, rdetached_locally s = true -> rsecond_detach s e = false ->
+    existsb ris_flow (snd (rkstep s e)) = false /\ existsb ris_disp (snd (rkstep s e)) = false /\
+    (existsb ris_det (snd (rkstep s e)) = true -> False).
+Proof. exact r_after_detach_quiet. Qed.
+Print Assumptions C13_rlink_after_detach_partial.
+
+Theorem C13_rlink_second_detach_refuted :
+  exists es, let os := concat (snd (rkrun RAttSent es)) in
+    length (filter ris_det os) = 2%nat /\ length (filter ris_att os) = 0%nat.
+Proof. exact r_second_detach_refutes. Qed.
+Print Assumptions C13_rlink_second_detach_refuted.
+
+(** A peer detach not yet seen by the application is answered by its next operation on the link (recv, detach,
+    close, drop) unless that operation is a recv() that finds a delivery queued before the detach; a recv() that is
+    already waiting answers at once and in kind; the answer is in kind for close(), drop and recv(). *)
+Theorem C13_rlink_peer_detach_answered_partial :
+  (forall q k e, rnext_op e = true -> (e = ERecv -> q = 0%nat) ->
+     existsb ris_det (snd (rkstep (RIdle q (Some k)) e)) = true) /\
+  (forall k, In (YDetach (ranswer k)) (snd (rkstep RRecvWait (EPDetach k)))) /\
+  (forall q k e, (e = EClose \/ e = EDrop \/ (e = ERecv /\ q = 0%nat)) ->
+     In (YDetach (ranswer k)) (snd (rkstep (RIdle q (Some k)) e)) \/ In (YDetach true) (snd (rkstep (RIdle q (Some k)) e))).
+Proof. split; [exact r_peer_detach_answered|]. split; [exact r_pending_recv_answers|exact r_answered_in_kind]. Qed.
+Print Assumptions C13_rlink_peer_detach_answered_partial.
+
+(** the exception: the next operation returns a queued delivery and writes no detach *)
+Theorem C13_rlink_detach_behind_transfer_refuted : forall q k,
+  snd (rkstep (RIdle (S q) (Some k)) ERecv) = [YDisp; YFlow; RRecv None].
+Proof. exact r_detach_behind_transfer_refutes. Qed.
+Print Assumptions C13_rlink_detach_behind_transfer_refuted.
+
+(** detach() answers a closing detach with a non-closing one *)
+Theorem C13_rlink_answer_in_kind_refuted : forall q,
+  snd (rkstep (RIdle q (Some QClose)) EDetach) = [YDetach false; RDet (Some EDetachedByRemote)].
+Proof. exact r_detach_not_in_kind_refutes. Qed.
+Print Assumptions C13_rlink_answer_in_kind_refuted.
+
+(** detach()/close() return only in the step that consumes the peer's detach or when it had arrived before;
+    the peer's error is what close() and recv() report. *)
+Theorem C13_rlink_returns_after_peer :
+  (forall s e r, (In (RDet r) (snd (rkstep s e)) \/ In (RCls r) (snd (rkstep s e))) ->
+     (exists k, e = EPDetach k /\ (s = RDetSent \/ s = RClsSent \/ exists c, s = RReCls c)) \/
+     (exists q k, s = RIdle q (Some k)) \/ (exists c, s = RDetached c)) /\
+  (forall s r, In (RCls r) (snd (rkstep s (EPDetach QCloseErr))) -> r = Some ERemoteClosedWithError) /\
+  (forall s r, In (RRecv r) (snd (rkstep s (EPDetach QCloseErr))) -> r = Some ERemoteClosedWithError) /\
+  (forall q, In (RRecv (Some ERemoteClosedWithError)) (snd (rkstep (RIdle 0 (Some QCloseErr)) ERecv)) /\
+             In (RCls (Some ERemoteClosedWithError)) (snd (rkstep (RIdle q (Some QCloseErr)) EClose))).
+Proof.
+  split; [exact r_detach_close_wait|]. split; [exact r_peer_error_to_close|]. split; [exact r_peer_error_to_recv|exact r_peer_error_unseen].
+Qed.
+Print Assumptions C13_rlink_returns_after_peer.
+
+(** the exception: detach() does not report the peer's error - neither when the closing detach with the error was
+    waiting unseen, nor when it came as the answer to the detach (the error is dropped before the re-attach) *)
+Theorem C13_rlink_peer_error_lost_refuted :
+  (forall q, snd (rkstep (RIdle q (Some QCloseErr)) EDetach) = [YDetach false; RDet (Some EDetachedByRemote)]) /\
+  snd (rkrun RAttSent [EPAttach; EDetach; EPDetach QCloseErr; EPAttach; EPDetach QClose]) =
+    [[YFlow; RAttached]; [YDetach false]; [YAttach]; [YDetach true]; [RDet (Some EClosedByRemote)]].
+Proof. exact r_peer_error_lost_refutes. Qed.
+Print Assumptions C13_rlink_peer_error_lost_refuted.
+
+(** The link never brings its session down ("dropping a handle never tears down the enclosing session"): no step
+    writes an end; a delivery that arrives for a receiver whose handle was dropped before the peer's detach is
+    discarded (it used to end the session with unattached-handle: repaired). *)
+Theorem C13_rlink_never_ends_session :
+  forall s e, ~ In YEnd (snd (rkstep s e)).
+Proof. exact r_never_ends_session. Qed.
+Print Assumptions C13_rlink_never_ends_session.
+
+Example C13_rlink_drop_then_transfer :
+  snd (rkrun RAttSent [EPAttach; EDrop; EPTransfer; EPDetach QClose]) = [[YFlow; RAttached]; [YDetach true]; []; []].
+Proof. exact r_drop_then_transfer. Qed.
+
+Example C13_rlink_clean :
+  rkrun RAttSent [EPAttach; EPTransfer; ERecv; EDetach; EPDetach QDetach] =
+    (RGone, [[YFlow; RAttached]; []; [YDisp; YFlow; RRecv None]; [YDetach false]; [RDet None]]) /\
+  rkrun RAttSent [EPAttach; ERecv; EPTransfer; EClose; EPDetach QClose] =
+    (RGone, [[YFlow; RAttached]; []; [YDisp; YFlow; RRecv None]; [YDetach true]; [RCls None]]).
+Proof. exact r_clean_detach_close. Qed.
